@@ -90,6 +90,74 @@ pub fn oracle_skip(t: &Tables, c: &VmCase, probe: &mut Probe) -> Result<(), Fail
     Ok(())
 }
 
+/// A state one of whose maxima was lowered *below* the number of elements the stack already holds
+/// (`set_max_stack_size` on a live state): such a destination stack is full - over-full - and an instruction
+/// that would have to add to it cannot be carried out.  Whatever it reports, the state must come back untouched.
+#[derive(Clone, Debug, serde::Serialize, serde::Deserialize)]
+pub struct LoweredCase {
+    pub vm: VmCase,
+    /// per stack (exec, int, float, bool): how far below the current size the maximum is set (0 = left alone)
+    pub lower: [u8; 4],
+}
+
+pub fn oracle_lowered(t: &Tables, c: &LoweredCase, p: &mut Probe) -> Result<(), Fail> {
+    use ordered_float::OrderedFloat;
+    let mut state = c.vm.real(t, 1).map_err(|e| Fail::new("setup/state-construction", e))?;
+    macro_rules! lower {
+        ($ty:ty, $k:expr) => {{
+            let size = state.stack::<$ty>().size();
+            if c.lower[$k] > 0 && size > 0 {
+                state.stack_mut::<$ty>().set_max_stack_size(size.saturating_sub(usize::from(c.lower[$k])));
+            }
+        }};
+    }
+    lower!(PushProgram, 0);
+    lower!(i64, 1);
+    lower!(OrderedFloat<f64>, 2);
+    lower!(bool, 3);
+    let Some(instr) = c.vm.instr.as_ref() else { return Ok(()) };
+    let Some(real) = t.program(instr) else { fail!("setup/no-real-instruction", "{instr:?} has no real counterpart") };
+    let name = prog_name(instr);
+    let before = state.clone();
+    match guarded(move || real.perform(state)) {
+        Err(panic) => fail!(format!("{name}/panic:{}", panic_key(&panic)), "{name} on a state with maxima lowered below the sizes ({:?}) panicked: {panic}", c.lower),
+        Ok(Ok(_)) => {}
+        Ok(Err(e)) => {
+            let recoverable = e.is_recoverable();
+            let after = e.into_state();
+            if !crate::model::real::same_state(&after, &before) {
+                fail!(
+                    format!("{name}/state-changed-by-failing-instruction"),
+                    "{name} failed ({}) on a state whose maxima had been lowered below the stack sizes by {:?} (exec, int, float, bool), and the state it handed back differs from the state it was given.\nbefore: {:?}\nafter:  {:?}",
+                    if recoverable { "recoverably" } else { "fatally" },
+                    c.lower,
+                    snap(&before),
+                    snap(&after)
+                );
+            }
+            p.nontrivial = true;
+            p.label(if recoverable { "failed recoverably, state untouched" } else { "failed fatally, state untouched" });
+        }
+    }
+    Ok(())
+}
+
+/// every instruction x sizes {0..3}^4 x one stack (or all four) lowered below its size by 1 or 2
+fn lowered_shapes(t: &Tables, seed: u64) -> Vec<LoweredCase> {
+    let patterns: [[u8; 4]; 9] = [[1, 0, 0, 0], [0, 1, 0, 0], [0, 0, 1, 0], [0, 0, 0, 1], [2, 0, 0, 0], [0, 2, 0, 0], [0, 0, 2, 0], [0, 0, 0, 2], [1, 1, 1, 1]];
+    let mut out = vec![];
+    for vm in shapes(t, seed) {
+        // the slack bits of the plain shape space select the pattern here (every size combination meets every pattern)
+        let slack = [vm.max_exec - vm.exec.len(), vm.max_int - vm.int.len(), vm.max_float - vm.float.len(), vm.max_bool - vm.boolean.len()];
+        let code = slack[0] + 2 * slack[1] + 4 * slack[2] + 8 * slack[3];
+        if code >= patterns.len() {
+            continue;
+        }
+        out.push(LoweredCase { vm, lower: patterns[code] });
+    }
+    out
+}
+
 /// The complete shape space for one instruction.
 fn shapes(t: &Tables, seed: u64) -> impl Iterator<Item = VmCase> + '_ {
     let mut instrs: Vec<Prog> = t.all_ops().into_iter().map(Prog::I).collect();
@@ -184,7 +252,7 @@ pub fn run(ctx: &mut Ctx) {
     if !t.uncovered.is_empty() {
         ctx.inconclusive.push(format!("instruction variants unknown to the reference semantics: {:?}", t.uncovered));
     }
-    ctx.rule = "fault_points: every instruction on boundary-biased generated states; shape_space: for every instruction the complete set of stack shapes (sizes 0..3 on each of the four stacks x slack 0/1 on each, 4096 shapes; values pseudo-random) - exhaustive over shapes; skip_semantics: generated programs run under limits L and L+1 around every recoverably failing instruction. non-trivial = the instruction returned an error (fault/shape checks) or a recoverable failure occurred inside the run (skip check); distinct by JSON encoding".into();
+    ctx.rule = "fault_points: every instruction on boundary-biased generated states; shape_space: for every instruction the complete set of stack shapes (sizes 0..3 on each of the four stacks x slack 0/1 on each, 4096 shapes; values pseudo-random) - exhaustive over shapes; shape_space_lowered_maxima: the same sizes with the maximum of one stack (or of all four) lowered by 1 or 2 below the number of elements it already holds before the instruction is performed (a destination that is over-full); skip_semantics: generated programs run under limits L and L+1 around every recoverably failing instruction. non-trivial = the instruction returned an error (fault/shape checks) or a recoverable failure occurred inside the run (skip check); distinct by JSON encoding".into();
     ctx.assumptions.push("'state before the instruction' is the state handed to perform (the interpreter has already removed the instruction from exec)".into());
     let (n_fault, n_skip, shape) = ctx.tier.pick((300_000u32, 20_000u32, QUICK_SHAPE), (6_000_000, 600_000, THOROUGH_SHAPE));
     ctx.run_prop("fault_points", n_fault, || single_step_case(&Tables::build()), |c, p| {
@@ -196,6 +264,7 @@ pub fn run(ctx: &mut Ctx) {
         let name = if k == 0 { "shape_space".to_string() } else { format!("shape_space_{k}") };
         ctx.run_cases(&name, shapes(&t, *s), |c, p| oracle_fault(&t, c, p));
     }
+    ctx.run_cases("shape_space_lowered_maxima", lowered_shapes(&t, splitmix(ctx.seed ^ 0x10E)), |c, p| oracle_lowered(&t, c, p));
     ctx.run_prop("skip_semantics", n_skip, || program_case(&Tables::build(), shape), |c, p| {
         thread_local! { static T: Tables = Tables::build(); }
         T.with(|t| oracle_skip(t, c, p))
@@ -247,6 +316,7 @@ pub fn replay(ctx: &mut Ctx, sub: &str, case: &Value) {
     let t = Tables::build();
     match sub {
         "skip_semantics" => ctx.replay_case::<VmCase, _>(sub, case, |c, p| oracle_skip(&t, c, p)),
+        "shape_space_lowered_maxima" => ctx.replay_case::<LoweredCase, _>(sub, case, |c, p| oracle_lowered(&t, c, p)),
         "fuzz_vm_diff" => ctx.replay_case::<VmCase, _>(sub, case, |c, p| crate::props::c01::oracle_program(&t, c, p, 24)),
         _ => ctx.replay_case::<VmCase, _>(sub, case, |c, p| oracle_fault(&t, c, p)),
     }
